@@ -1,9 +1,11 @@
 package main
 
 import (
+	"context"
 	"encoding/json"
 	"fmt"
 	"os"
+	"os/exec"
 	"path/filepath"
 	"strings"
 	"time"
@@ -91,7 +93,22 @@ func selftest(id string, pc *PropConfig, kf *KFFile, seed int) int {
 // A witness is a Go test file injected with -overlay into WitnessDir; the finding reproduces when the test fails.
 func runWitnesses(id string, kf *KFFile) {
 	for _, k := range kf.Findings {
-		if k.Property != id || k.Witness == "" || k.WitnessDir == "" {
+		if k.Property != id || k.Witness == "" {
+			continue
+		}
+		if strings.HasSuffix(k.Witness, ".sh") {
+			// a script that exercises the real toolchain: exit 1 = the defect reproduces, 0 = it does not
+			ctx, cancel := context.WithTimeout(context.Background(), 10*time.Minute)
+			out, err := exec.CommandContext(ctx, "bash", k.Witness).CombinedOutput()
+			cancel()
+			if err != nil {
+				fmt.Printf("known finding witness reproduced on the real code: %s (%s)\n", k.Witness, firstLine(lastLines(string(out), 40)))
+			} else {
+				fmt.Printf("NOTE: the witness of a known finding no longer fails on the real code: %s\n", k.Witness)
+			}
+			continue
+		}
+		if k.WitnessDir == "" {
 			continue
 		}
 		tmp, err := os.MkdirTemp(filepath.Join(verifDir, "work"), "witness")
@@ -113,7 +130,7 @@ func runWitnesses(id string, kf *KFFile) {
 
 func lastLines(s string, n int) string {
 	for _, l := range strings.Split(s, "\n") {
-		if strings.HasPrefix(l, "panic:") || strings.HasPrefix(l, "fatal error:") || strings.HasPrefix(l, "--- FAIL") {
+		if strings.HasPrefix(l, "panic:") || strings.HasPrefix(l, "fatal error:") || strings.HasPrefix(l, "--- FAIL") || strings.HasPrefix(l, "DEFECT") {
 			return l
 		}
 	}
